@@ -179,4 +179,48 @@ theorem seqCounts_self (kp : List (Bool × Nat)) :
     simp only [List.zip_cons_cons, List.countP_cons, beq_self_eq_true, Bool.and_true]
     omega
 
+theorem zip_countP_match_le (kp tp : List (Bool × Nat)) :
+    (kp.zip tp).countP (fun x => x.2.1 && x.1 == x.2) ≤ kp.countP (·.1) := by
+  induction kp generalizing tp with
+  | nil => simp
+  | cons p ps ih =>
+    cases tp with
+    | nil => simp
+    | cons q qs =>
+      simp only [List.zip_cons_cons, List.countP_cons]
+      have h := ih qs
+      have h2 : (if (q.1 && p == q) = true then 1 else 0) ≤ (if p.1 = true then 1 else 0) := by
+        by_cases hc : (q.1 && p == q) = true
+        · simp only [Bool.and_eq_true, beq_iff_eq] at hc
+          have hp : p.1 = true := by rw [hc.2]; exact hc.1
+          simp [hp]
+          split <;> omega
+        · simp [hc]
+      omega
+
+theorem zip_countP_insert_le (kp tp : List (Bool × Nat)) :
+    (kp.zip tp).countP (fun x => !x.2.1 && x.1 == x.2) ≤ kp.countP (fun p => !p.1) := by
+  induction kp generalizing tp with
+  | nil => simp
+  | cons p ps ih =>
+    cases tp with
+    | nil => simp
+    | cons q qs =>
+      simp only [List.zip_cons_cons, List.countP_cons]
+      have h := ih qs
+      have h2 : (if (!q.1 && p == q) = true then 1 else 0) ≤ (if (!p.1) = true then 1 else 0) := by
+        by_cases hc : (!q.1 && p == q) = true
+        · simp only [Bool.and_eq_true, beq_iff_eq] at hc
+          have hp : (!p.1) = true := by rw [hc.2]; exact hc.1
+          simp [hp]
+          split <;> omega
+        · simp [hc]
+      omega
+
+/-- correct <= counted, per sequence: a residue is "correct" only if it sits at the same RF-relative position in both alignments, so a
+    correct test match (insert) residue is one of the trusted alignment's match (insert) residues too -/
+theorem seqCounts_le (kp tp : List (Bool × Nat)) :
+    (seqCounts kp tp).2.2.1 ≤ (seqCounts kp tp).1 ∧ (seqCounts kp tp).2.2.2 ≤ (seqCounts kp tp).2.1 :=
+  ⟨zip_countP_match_le kp tp, zip_countP_insert_le kp tp⟩
+
 end EaselModel.Miniapps.Ali
